@@ -248,6 +248,32 @@ def implied_equalities(pc, goal):
                 subs.append((v, t))
                 gone.add(name)
                 break
+    # difference relations v == u + c (or v == c) suggested by one model of the path condition
+    if s.check() == z3.sat:
+        m = s.model()
+        names = sorted(consts)
+        for name in names:
+            if name in gone:
+                continue
+            v = consts[name]
+            mv = m.eval(v, model_completion=True)
+            if not z3.is_int_value(mv):
+                continue
+            found = None
+            for other in [None] + [n for n in names if n != name and n not in gone]:
+                if other is None:
+                    t = z3.IntVal(mv.as_long())
+                else:
+                    mu = m.eval(consts[other], model_completion=True)
+                    if not z3.is_int_value(mu):
+                        continue
+                    t = consts[other] + (mv.as_long() - mu.as_long())
+                if s.check(v != t) == z3.unsat:
+                    found = z3.simplify(t)
+                    break
+            if found is not None:
+                subs.append((v, found))
+                gone.add(name)
     if not subs:
         return goal, []
     g = goal
